@@ -834,8 +834,14 @@ func processStructProvider(fset *token.FileSet, info *types.Info, call *ast.Call
 			fmt.Errorf(firstArgReqFormat, types.TypeString(structPtr, nil)))
 	}
 
-	stExpr := call.Args[0].(*ast.CallExpr)
-	typeName := qualifiedIdentObject(info, stExpr.Args[0]) // should be either an identifier or selector
+	// Take the struct's name from its type, not from the syntax of the
+	// argument: besides new(T), the pointer may be spelled (*T)(nil) or &T{}.
+	named, ok := structPtr.Elem().(*types.Named)
+	if !ok {
+		return nil, notePosition(fset.Position(call.Pos()),
+			fmt.Errorf(firstArgReqFormat, types.TypeString(structPtr, nil)))
+	}
+	typeName := named.Obj()
 	provider := &Provider{
 		Pkg:      typeName.Pkg(),
 		Name:     typeName.Name(),
